@@ -9,19 +9,24 @@ RULE = ('exhaustive: all ordered pairs of polynomials of degree <= 2 with coeffi
 PROVED = ['[P] gcd_zero_l: gcd(0, g) = g verbatim',
           '[P] gcd_zero_r: gcd(f, 0) = f if lc f > 0, -f otherwise (= |cont f| * pp f), for canonical f <> 0',
           '[P] gcd_no_outoffuel: the supplied fuel suffices for all inputs',
-          '[C] gcd_flag_no_panic_partial: canonical inputs, flag true => a polynomial is returned',
-          '[C] gcd_partial: canonical inputs, f <> 0, flag true, result d => d is associated over Q to gcdp(f, g) (MathComp, %=), d canonical, lc d > 0']
-NOT_PROVED = ['exactness of the a*b^delta divisions (sub-resultant structure theorem): flag observed true on every explored input',
-              'integrality: d | f and d | g in Z[x], coprime cofactor contents (Gauss lemma on top of gcd_partial): checked by the oracle (exact division over Q with integer quotient, rational Euclid on the cofactors, contents) on every case',
-              'deg d = deg f + deg g - rank Sylvester(f, g): oracle only']
+          '[P] gcd_flag_true: for all canonical inputs every truncating division of the run (by a*b^delta and by b^delta) is exact (sub-resultant structure theorem, see C04)',
+          '[P] gcd_total: canonical inputs => a polynomial is returned (no division by zero)',
+          '[P] gcd_spec: canonical inputs, f <> 0 => the result d is associated over Q to gcdp(f, g) (MathComp, %=), d canonical, lc d > 0; no flag hypothesis',
+          '[P] gcd_divides: canonical inputs, f <> 0 => d divides f and g exactly in Z[x] (cofactors in Z[x]), the cofactors are coprime over Q (MathComp coprimep: no common root) and have coprime contents (no integer other than +-1 divides all coefficients of both)',
+          '[P] gcd_greatest (+ gcd_greatest_Z): every h in Z[x] dividing both f and g in Z[x] divides the returned d in Z[x] (Bezout over Z[x] with an integer constant + contents/primitive parts)',
+          '[P] rank_Sylvester: over any field, rank Sylvester(p, q) = deg p + deg q - deg gcd(p, q) for non-zero p, q (band matrices, bounded Bezout)',
+          '[P] gcd_degree: canonical non-zero inputs => deg d = deg f + deg g - rank of the Sylvester matrix of f and g over Q',
+          '[P] gauss_dvd: Gauss lemma for {poly Z} (a primitive P dividing F over Q divides F in Z[x]), transported from intdiv.zcontentsM',
+          '[C] gcd_flag_no_panic_partial, gcd_partial: the first-wave conditional forms (kept; now subsumed)']
+NOT_PROVED = []
 
 TIMEOUT = 3600          # per service process; the extracted model computes with Coq's binary integers (slow on 64-bit coefficients)
 
 CLAIM = dict(
-    technique='Coq proofs about the Gallina model of resultant_smart_gcd (edge cases, termination; under the exactness flag: no panic, result associated over Q to MathComp gcdp of the inputs, positive leading coefficient) + extracted-model-vs-implementation correspondence + independent divisibility/coprimality/Sylvester-rank oracle on every case',
-    text='For all inputs: gcd(0,g), gcd(f,0), fuel sufficiency; whenever the exactness flag is true: no panic, d %= gcdp(f,g) over Q and lc d > 0 ([C]). '
-         'Divisibility in Z[x] with coprime cofactor contents and the Sylvester-rank degree formula are checked on every generated case by independent oracles; they are not proved.',
-    note='Exactness flag observed true on every explored input; integrality of the cofactors (Gauss lemma) and the rank formula are oracle-checked, not proved.',
+    technique='Coq proofs about the Gallina model of resultant_smart_gcd (edge cases, termination, exactness of every division via the sub-resultant structure theorem, result associated over Q to MathComp gcdp of the inputs, positive leading coefficient, divisibility in Z[x] with coprime cofactors and coprime cofactor contents via Gauss lemma, greatest-ness, Sylvester-rank degree formula) + extracted-model-vs-implementation correspondence + independent divisibility/coprimality/Sylvester-rank oracle on every case',
+    text='For all canonical inputs: gcd(0,g), gcd(f,0), fuel sufficiency, all divisions exact, no panic, d %= gcdp(f,g) over Q and lc d > 0 (gcd_spec); d divides f and g exactly in Z[x] with cofactors that are coprime polynomials and have coprime contents (gcd_divides, Gauss lemma), and every common divisor in Z[x] divides d (gcd_greatest). '
+         'deg d = deg f + deg g - rank Sylvester(f, g) over Q (gcd_degree). All clauses are additionally checked on every generated case by independent oracles.',
+    note='All clauses of the property text are proved for the model for canonical inputs; gcd_degree states the rank over Q through the embedding ZtoQ.',
     ref='DESIGN.md section 4, C10')
 
 def o_gcd(f, g):
